@@ -136,6 +136,7 @@ def runs_c12(tier):
         S.suite_trsm(g, n(tier, 60, 800), big=True)
         S.suite_inverse(g, n(tier, 60, 800), big=True)
         S.suite_solve(g, n(tier, 100, 1200), big=True)
+        S.suite_ple_recursive(g, n(tier, 14, 150))      # block-recursive PLE regime of the small-cache configurations
     cfgs = [DEF, SC, SC_NOSSE, MID, B.thread_safe(SC), dict(SC, l1=4096, l2=262144, l3=1048576)]
     if tier != Q:
         cfgs += [DEF_NOSSE, B.thread_safe(DEF), dict(DEF, l1=4096), dict(MID, sse2=0), dict(SC, l2=65536),
